@@ -134,7 +134,10 @@ func (w *World) verifyFuncOnce(fi *FuncInfo, props []string, prefix []int, pathM
 		if len(fi.Spec.Asserts) > 0 {
 			// statement-anchored assertions are about the body, not about what callers see: they are checked
 			cp.Spec = &FuncSpec{Key: fi.Spec.Key, PkgPath: fi.Spec.PkgPath, Name: fi.Spec.Name, Asserts: fi.Spec.Asserts, Props: fi.Spec.Props,
-				File: fi.Spec.File, Line: fi.Spec.Line, Flags: map[string]string{}, Loops: map[int]*LoopSpec{}}
+				File: fi.Spec.File, Line: fi.Spec.Line, Flags: map[string]string{}, Loops: fi.Spec.Loops}
+			if cp.Spec.Loops == nil {
+				cp.Spec.Loops = map[int]*LoopSpec{}
+			}
 		}
 		fi = &cp
 	}
